@@ -5,6 +5,11 @@ FUNCTIONS = ['socket.Socket.check_ping_timeout', 'socket.Socket.send', 'socket.S
              'async_socket.AsyncSocket.check_ping_timeout', 'async_socket.AsyncSocket.send',
              'async_socket.AsyncSocket.close', 'async_socket.AsyncSocket.schedule_ping',
              'async_socket.AsyncSocket._send_ping']
+# functions whose contracts carry C05-tagged clauses (session-end bookkeeping on their paths)
+FUNCTIONS += ['socket.Socket.receive', 'async_socket.AsyncSocket.receive',
+              'socket.Socket._websocket_handler', 'async_socket.AsyncSocket._websocket_handler',
+              'server.Server._handle_connect', 'async_server.AsyncServer._handle_connect',
+              'server.Server.disconnect', 'async_server.AsyncServer.disconnect']
 
 LEVEL_TEXT = "close() is verified to flip closing/closed exactly once and to log exactly one disconnect event with the caller's reason (or 'server disconnect'), idempotently; every call site passes the reason of its cause (ping timeout, client CLOSE, transport error/close, server disconnect); _trigger_event never raises and invokes the handler once; the WebSocket read loop may read a frame only while the session is open (program-point obligation)"
 LEVEL_NOTE = 'sequential model per function (first cause wins is the closing guard; races between OS threads are outside the cooperative model); handler behaviour is the assumed library contract (arbitrary result or exception, TypeError when the signature does not fit)'
